@@ -1375,14 +1375,17 @@ class Cycles:
 
     def pick_cycle_subset(self, conditions):
         """Set conditions to define subsets + chains. This is not reversible for the moment."""
-        self.mask_conditions = conditions
-
         valids = self.get_matching_cycles(conditions)
-        self.subset_vect = get_subset_vector(valids)
-        self.chain_vect = get_chain_vector(self.subset_vect)
+        subset_vect = get_subset_vector(valids)
+        chain_vect = get_chain_vector(subset_vect)
 
-        vals = _cycles_support.project_chain_to_cycles(np.arange(self.chain_vect.max()+1),
-                                                       self.chain_vect, self.subset_vect)
+        vals = _cycles_support.project_chain_to_cycles(np.arange(chain_vect.max()+1),
+                                                       chain_vect, subset_vect)
+
+        # Only store the new subset once all of it has been computed
+        self.mask_conditions = conditions
+        self.subset_vect = subset_vect
+        self.chain_vect = chain_vect
         self.add_cycle_metric('chain_ind', vals, dtype=int)
 
     # ----------------------
